@@ -322,7 +322,7 @@ func (bf *buffer) ReadPeek(n int) ([]byte, error) {
 	// If there's no data, then let's wait until there is some data
 	verifYield("buf.peek.prelock", bf)
 	bf.ccond.L.Lock()
-	for ; cpos >= ppos; ppos = bf.pseq.get() {
+	for ppos = bf.pseq.get(); cpos >= ppos; ppos = bf.pseq.get() {
 		if bf.isDone() {
 			bf.ccond.L.Unlock()
 			return nil, io.EOF
@@ -388,7 +388,7 @@ func (bf *buffer) ReadWait(n int) ([]byte, error) {
 	// If there's no data, then let's wait until there is some data
 	verifYield("buf.readwait.prelock", bf)
 	bf.ccond.L.Lock()
-	for ; next > ppos; ppos = bf.pseq.get() {
+	for ppos = bf.pseq.get(); next > ppos; ppos = bf.pseq.get() {
 		if bf.isDone() {
 			bf.ccond.L.Unlock()
 			return nil, io.EOF
